@@ -58,6 +58,7 @@ def volume_to_precomputed_pyramid(volume_filename,
     except neuroglancer_scripts.accessor.DataAccessError as exc:
         logger.error(f"Cannot write info: {exc}")
         return 1
+    img = volume_reader.split_rgb_channels(img)
     volume_reader.nibabel_image_to_precomputed(
         img, precomputed_writer,
         ignore_scaling, input_min, input_max,
